@@ -35,7 +35,9 @@ PROP = {'drive': ['Shape'],
          'insertions produce glyphs that start the same match again, run last (10; a non-terminating engine shows '
          'as the time-out outcome on D shape.text), sfnt.Layouter.Layout on CFF and glyf fonts (internal/debug maker) '
          'whose cmap or a GSUB 1.1 substitution delivers glyph IDs 1, NumGlyphs/2, NumGlyphs-1, NumGlyphs, +1, +2, '
-         '0xFFFF (28; D shape.layout: no panic, text kept, advance = width inside the font and 0 beyond it)',
+         '0xFFFF (28; D shape.layout: no panic, text kept, advance = width inside the font and 0 beyond it), histories of 2-4 texts on ONE sfnt.Layouter whose GPOS '
+         'writes placement offsets (GPOS 1.1 / 1.2 with XPlacement/YPlacement/XAdvance, GPOS 4.1 mark attachment; CFF '
+         'and glyf fonts: 36; D shape.layoutseq: every result, all fields, equals that of a fresh Layouter)',
  'partial': ['C07_no_panic is proved in full for every lookup list in the shape the reader delivers, and that shape is '
              'proved for the images of the modelled subtable readers (C07_reader_delivers_shape, C07_no_panic_reader) '
              '(readerShapedLL = coverage indices inside the indexed arrays, context format 3 and chained context '
